@@ -408,6 +408,12 @@ func (env *Zlisp) ImportBaseTypes() {
 	// builtin of this one.
 	glob := env.linearstack.elements[0].(*Scope)
 	for _, e := range GoStructRegistry.Userdef {
+		if !e.hasShadowStruct {
+			// declared by a script (struct, defmap, a record kind made
+			// on first use) of some interpreter of this process, not
+			// registered from Go: not part of a new interpreter.
+			continue
+		}
 		if cur, bound := glob.Map[env.MakeSymbol(e.RegisteredName).number]; bound {
 			if _, isFunc := cur.(*SexpFunction); isFunc {
 				continue
